@@ -27,7 +27,8 @@ scratch = Path(tempfile.mkdtemp(prefix="seedeval_"))
 for c in checks:
     e = dict(os.environ, VERIF_REPO=str(wt), VERIF_EVIDENCE_DIR=str(scratch / "ev"), VERIF_REPLAYS_DIR=str(scratch / "rp"))
     t0 = time.time()
-    cr = run(["/verif/check", c, "--tier", "quick"], cwd="/verif", env=e)
+    VR = os.environ.get("VERIF_ROOT", "/verif")
+    cr = run([VR + "/check", c, "--tier", "quick"], cwd=VR, env=e)
     viol = [l for l in cr.stdout.splitlines() if l.startswith("VIOLATION")]
     info = {"exit": cr.returncode, "violation_lines": viol, "wall_s": round(time.time() - t0, 1)}
     if viol:
